@@ -27,7 +27,7 @@ class World(object):
         self.tape = tape
         sc = scenario.get('sched', {})
         self.sim = Sim(tape, max_steps=sc.get('max_steps', 200000),
-                       max_vtime_us=sc.get('max_vtime_us', 120 * 10**6),
+                       max_vtime_us=sc.get('max_vtime_us', 3600 * 10**6),
                        trace=scenario.get('trace', False))
         self.sim.line_mute = sc.get('granularity', 'line') == 'io'
         self.server = Server(self.sim, scenario.get('server', {}))
